@@ -94,6 +94,10 @@ fn main() {
             let out = out.unwrap_or_else(|| usage());
             std::process::exit(checks::c03::worker(shard, nshards, seed, tier, &out, trace.as_deref(), only))
         }
+        "mkcorpus" => {
+            // (re)generate the committed seed corpora of the fuzz targets
+            std::process::exit(ffv::fuzzdec::make_corpora(seed))
+        }
         "dump" => {
             let corpus = pos.first().cloned().unwrap_or_else(|| usage());
             let out = out.unwrap_or_else(|| usage());
